@@ -7,7 +7,8 @@
   one atomic step (a Go statement sequence between channel operations), so that an arbitrary
   interleaving of goroutines is an arbitrary label sequence:
 
-    executor goroutine   go / batch / chain (resolver calls), idle (calls the idle handler),
+    executor goroutine   go / batch / chain (resolver calls; `dep` = the promise of the nearest
+                         asynchronously resolved ancestor field, see `depOK`), idle (calls the idle handler),
                          flush / recvBlock / drain / idleRet (the idle handler's phases), ret
     task goroutines      fin (the body of a Go task returns; it now offers its resolution on the
                          unbuffered `asyncResolutions`), release (fixed code only: `done` is closed,
@@ -83,11 +84,13 @@ structure St where
   registered : List (Nat × Nat × Nat) := []  -- (batch key, item, promise) in registration order
   finished : List (Nat × Res) := []        -- what each task body returned
   progress : Bool := false                 -- this idle-handler invocation flushed or delivered a non-chained promise
+  snap : List (Nat × Res) := []            -- `delivered` as it was when the idle handler was last entered
+  regWave : List (Nat × Nat × Nat) := []   -- (promise, batch key, wave counter at registration)
   deriving Repr
 
 inductive Label where
-  | go (t : Nat)
-  | batch (k : Nat) (item : Nat) (p : Nat)
+  | go (t : Nat) (dep : Option Nat)
+  | batch (k : Nat) (item : Nat) (p : Nat) (dep : Option Nat)
   | chain (t : Nat) (ps : List Nat)
   | fin (t : Nat) (r : Res)
   | idle
@@ -170,14 +173,27 @@ def finishBatches (s : St) : St :=
 def took (s : St) (t : Nat) (r : Res) : St :=
   ({ s with blocked := s.blocked.filter (fun x => x.1 != t) }).deliver t r
 
+/-- The executor's poll pass (executor.go `wait`: `f.Poll()` after every return of the idle handler;
+    future.go `Join`/`After` poll *every* child) runs the continuation of every promise the handler
+    just fulfilled, all in the exec phase that follows. So a resolver call whose field hangs below the
+    asynchronously resolved field with promise `d` (its nearest such ancestor) happens in the exec
+    phase right after the idle-handler invocation that fulfilled `d`: `d` has a result now and had
+    none when the handler was entered. `none`: no such ancestor / not observable. -/
+def depOK (s : St) : Option Nat → Bool
+  | none => true
+  | some d => isDelivered s d && !(s.snap.any (fun x => x.1 == d))
+
 def step (c : Cfg) (s : St) : Label → Option St
-  | .go t =>
+  | .go t dep =>
     if s.crashed || s.phase != .exec || t != s.next then none else
+    if !depOK s dep then none else
     some { s with next := s.next + 1, running := ⟨t, []⟩ :: s.running }
-  | .batch k item p =>
+  | .batch k item p dep =>
     if s.crashed || s.phase != .exec || p != s.next then none else
+    if !depOK s dep then none else
     some { s with next := s.next + 1, batches := addToBatch s.batches k item p,
-                  registered := s.registered ++ [(k, item, p)] }
+                  registered := s.registered ++ [(k, item, p)],
+                  regWave := (p, k, s.wave) :: s.regWave }
   | .chain t ps =>
     if s.crashed || s.phase != .exec || t != s.next || !ps.all (· < s.next) then none else
     some { s with next := s.next + 1, running := ⟨t, ps⟩ :: s.running, chained := ps ++ s.chained }
@@ -195,7 +211,7 @@ def step (c : Cfg) (s : St) : Label → Option St
   | .idle =>
     if s.crashed || s.phase != .exec then none else
     if (List.range s.next).any (fun p => !isDelivered s p && !s.chained.contains p) then
-      some { s with phase := .top, wave := s.wave + 1, progress := false }
+      some { s with phase := .top, wave := s.wave + 1, progress := false, snap := s.delivered }
     else none
   | .flush rs =>
     if s.crashed || s.phase != .top || s.batches.isEmpty then none else
